@@ -1,4 +1,6 @@
 import ScVerif.C20.PubConcLemmas
+import ScVerif.C20.GauLin
+import ScVerif.C20.GauChecked
 /-!
 # C20 — property theorems, Publication under concurrent callers
 
@@ -69,6 +71,80 @@ theorem C20_pub_conc_calls_are_steps (H : Hash) (t : Int) (s : Store) (cur : Pub
         | none => (set id ((ackCall v receipt reason allow).apply cur t) s, .ok)) :=
   ⟨fun p mask v hid hl => step_update_eq H t s p cur mask v hid hl,
    fun id v receipt reason allow hid hv hl => step_ack_eq H t s id v cur receipt reason allow hid hv hl⟩
+
+/-- **The version / acknowledge protocol holds at the commit, under every interleaving**: at every point of
+every interleaving, a step of thread `i` either leaves the stored publication alone, or it is the commit of
+an `UpdatePublication` whose version precondition (if it names one) is the version stored *at that moment*
+— and the new publication is the sequential update of exactly that stored publication — or the commit of an
+`AcknowledgePublication` that names the version stored at that moment, which carries no ACCEPTED / REJECTED
+receipt yet.  No conditional write is ever applied on top of a version it did not name, whatever other
+calls ran between its read and its commit. -/
+theorem C20_pub_conc_version_protocol (H : Hash) (cur : Pub) (now : Int) (progs : List (List PReq))
+    (sched : List Ev) (i : Nat) :
+    let c := Cfg.run ⟨cur, now, (progs.map (·.map (PReq.call H))).map Thread.ofCalls⟩ sched
+    (c.step (.step i)).store = c.store ∨
+    (∃ t p m v, (v = "" ∨ c.store.version = v) ∧
+        (c.step (.step i)).store = computed H t (mergeUpdate m c.store p)) ∨
+    (∃ t v r reason a, c.store.version = v ∧ acked c.store = false ∧
+        (c.step (.step i)).store = (ackCall v r reason a).apply c.store t) := by
+  intro c
+  have h0 : (c.step (.step i)).store = c.store ∨
+      ∃ th cl t, c.threads[i]? = some th ∧ th.cur = some (cl, .ready c.store t) ∧
+        cl.check c.store = none ∧ (c.step (.step i)).store = cl.apply c.store t :=
+    run_commit_checked cur now (progs.map (·.map (PReq.call H))) sched i
+  have hcalls : ∀ x ∈ c.calls, ∃ cs ∈ progs.map (·.map (PReq.call H)), x ∈ cs :=
+    fun x hx => init_calls cur now _ x (run_calls sched _ x hx)
+  clear_value c
+  rcases h0 with h | ⟨th, cl, t, hth, hcur, hck, hst⟩
+  · left; exact h
+  · right
+    have hmem : th ∈ c.threads := List.mem_of_getElem? hth
+    have hcl : cl ∈ c.calls := mem_calls_of_mem hmem (by simp [Thread.calls, hcur])
+    obtain ⟨cs, hcs, hx⟩ := hcalls cl hcl
+    obtain ⟨prog, _, rfl⟩ := List.mem_map.mp hcs
+    obtain ⟨req, _, rfl⟩ := List.mem_map.mp hx
+    cases req with
+    | update p m v =>
+      left
+      refine ⟨t, p, m, v, ?_, hst⟩
+      simp only [PReq.call, updateCall] at hck
+      by_cases hv : v = ""
+      · left; exact hv
+      · right
+        by_cases hne : c.store.version = v
+        · exact hne
+        · simp [hv, hne] at hck
+    | ack v r reason a =>
+      right
+      refine ⟨t, v, r, reason, a, ?_, ?_, hst⟩
+      · simp only [PReq.call, ackCall] at hck
+        by_cases hne : c.store.version = v
+        · exact hne
+        · simp [hne] at hck
+      · simp only [PReq.call, ackCall] at hck
+        by_cases hne : c.store.version = v
+        · cases hacked : acked c.store with
+          | false => rfl
+          | true => cases a <;> simp [hne, hacked] at hck
+        · simp [hne] at hck
+
+/-- **why the version check must run inside the write**: the variant that checks the version by a separate
+read before the write (here: a call that only checks, followed by an unconditional update) lets a rival's
+update slip in between — the update meant for version "b" is committed on top of version "b2", both of the
+caller's steps answer ok, and the rival's content is lost without notice.  (`H` = the body, so a version
+tells the content.) -/
+theorem C20_pub_conc_check_outside_fails :
+    let H : Hash := fun _ b _ _ => b
+    let p0 : Pub := ⟨"p", "b", "", none, "b", some 100⟩
+    let precheck : PCall := ⟨false, fun cur => if cur.version ≠ "b" then some .failedPrecondition else none,
+      fun cur _ => cur, false, false⟩
+    let c := Cfg.run ⟨p0, 100, [[precheck, updateCall H ⟨"p", "a2", "", none, "", none⟩ .none ""],
+        [updateCall H ⟨"p", "b2", "", none, "", none⟩ .none ""]].map Thread.ofCalls⟩
+      [.step 0, .step 0, .step 0, .step 1, .step 1, .step 1, .step 1, .step 0, .step 0, .step 0]
+    c.store.version = "b2" ∧ (c.step (.step 0)).store.version = "a2" ∧
+      (c.step (.step 0)).threads.map (·.results.map (fun r => match r with | .ok _ => true | _ => false))
+        = [[true, true], [true]] := by
+  decide
 
 /-- the hypothesis is reachable: what `CreatePublication` stores at time 100 -/
 example : ReceiptOK 100 (computed (fun a _ _ _ => a) 100 ⟨"p", "b", "", some ⟨"n", 0, "", none⟩, "", none⟩) ∧
